@@ -9,10 +9,10 @@
 #include <stdlib.h>
 #include <string.h>
 
-static const int L0s[] = {0, 1, 7, 8, 9, 31, 32, 33, 100};
-#define NL0 9
-static const int Ns[] = {0, 1, 7, 8, 9, 15, 16, 17, 40, 100};
-#define NN 10
+static const int L0s[] = {0, 1, 7, 8, 9, 31, 32, 33, 100, 255, 256, 65536};
+#define NL0 (mc_tier ? 12 : 10)
+static const int Ns[] = {0, 1, 7, 8, 9, 15, 16, 17, 40, 100, 255, 256, 257, 65535, 65536, 70000};
+#define NN (mc_tier ? 16 : 12)
 #define NPAT 3
 
 static unsigned char pat_byte(int p, int i)
@@ -33,7 +33,7 @@ static void fill(unsigned char *b, int p, int n)
 struct st
 {
 	struct json_object *o;
-	unsigned char m[256];
+	unsigned char m[70016];
 	int len;
 	int pat; /* pattern id of the contents (for the key) */
 	int L0;
@@ -105,7 +105,7 @@ static void compare(struct st *s, const char *what)
 	json_object_put(same);
 	if (s->len > 0 && !s->dead)
 	{
-		unsigned char tmp[256];
+		static unsigned char tmp[70016];
 		memcpy(tmp, s->m, (size_t)s->len);
 		tmp[s->len - 1] ^= 0x01;
 		struct json_object *diff = json_object_new_string_len((const char *)tmp, s->len);
@@ -156,7 +156,7 @@ static void apply(void *vs, int op, int check)
 	sb_t w;
 	sb_init_fixed(&w, what, sizeof what);
 	opname(op, &w);
-	unsigned char src[256];
+	static unsigned char src[70016];
 	MC_COUNT("calls", 1);
 	switch (kind)
 	{
